@@ -1,6 +1,6 @@
 \* as Gen_PageCache_call2 but the budget admits ONE cache page (the `while !can_allocate` loop evicts) and a second shard
 CONSTANTS Threads = {t1, t2}  KA = {k1, k2}  KB = {k4}  Cap = 2  MaxCalls = 3  MaxHeld = 2  Fine = FALSE  InitMayFail = TRUE
-          BudgetPages = 1  Ballast = 32  ClearKeepsPinned = FALSE  ClearCountsUnderLock = FALSE  ReleaseOnInitError = FALSE
+          BudgetPages = 1  Ballast = 32  ClearKeepsPinned = FALSE  ClearCountsUnderLock = TRUE  ReleaseOnInitError = TRUE
 CONSTANT Keys <- KeysAll  ShardOf <- ShardsOneTwo
 SYMMETRY Sym
 SPECIFICATION Spec
